@@ -69,3 +69,135 @@ Theorem image_axes_distinct : forall (n : Z) (ops : list aop),
   2 <= a_n a /\ 0 <= a_x a < a_n a /\ 0 <= a_y a < a_n a /\ a_x a <> a_y a /\ a_xw a = a_x a /\ a_yw a = a_y a.
 Proof. exact Lemmas.image_axes_distinct. Qed.
 Print Assumptions image_axes_distinct.
+
+(* ---- the functions TRANSLATED from glue/viewers/common/viewer.py, glue/core/layer_artist.py and
+   glue/viewers/common/layer_artist.py (coq/gen/Gen_viewer.v, regenerated on every run; Model.v part 5 adds the collection
+   as environment: gstep / grun) ---- *)
+
+(* One step of the translated machine is one step of the hand model, for every operation (collection: append / remove a
+   dataset, new / remove subset group, save-restore, with the hub messages delivered through the translated subscription
+   table of register_to_hub; viewer: add_data, remove_data, add_subset, remove_layer): from related states (grel: same
+   collection, same artist list, artists and layer states of the heap in step: hinv) both machines reach related states
+   with the same status.  Covers translated Viewer.add_data / add_subset / remove_data / remove_subset / remove_layer,
+   _add_subset / _remove_subset / _remove_data with their filters, LayerArtist.__init__, LayerArtistContainer.append /
+   remove / pop / _notify / __contains__ / __iter__ / layers, the two sync callbacks and the callback recursion (knot). *)
+Theorem gen_step_refines : forall (o : op) (st : vstate) (p : vstate * Gen_viewer.heap),
+  grel st p ->
+  grel (fst (step o st)) (fst (gstep o p)) /\ snd (step o st) = snd (gstep o p).
+Proof. exact Lemmas.gen_step_refines. Qed.
+Print Assumptions gen_step_refines.
+
+(* Translated _sync_state_layers and _sync_layer_artist_container change nothing on a heap whose artists and layer states
+   are in step, whatever callbacks they are given. *)
+Theorem gen_sync_idle : forall cb h, hinv h ->
+  Gen_viewer.Viewer__sync_state_layers cb h = h /\ Gen_viewer.Viewer__sync_layer_artist_container cb h = h.
+Proof. exact Lemmas.gen_sync_idle. Qed.
+Print Assumptions gen_sync_idle.
+
+(* viewer_inv_reachable, about the translated definitions: after every history (same operations and same guard as
+   viewer_inv_reachable) run through the translated functions, the callback recursion never ran out of fuel, and the
+   container's artists and state.layers (read off the translated heap) satisfy the whole invariant. *)
+Theorem gen_viewer_inv_reachable : forall (fx : bool) (ops : list dop),
+  no_blocks ops = true ->
+  let r := grun ops (ginit fx) [] in
+  let st := gview (fst r) in
+  let given := snd r in
+  Gen_viewer.h_err (snd (fst r)) = false /\
+  sls st = arts st /\ NoDup (arts st) /\ NoDup given /\
+  (forall d, In d given -> In d (dc st)) /\
+  (forall d, In (LData d) (arts st) <-> In d given) /\
+  (forall s d g, In (LSub s d g) (arts st) -> In d (dc st) /\ exists lv, In (mkSub s d g lv) (subs st)) /\
+  (forall s d g lv, In d given -> In (mkSub s d g lv) (subs st) -> In (LSub s d g) (arts st)) /\
+  (fx = true -> forall s d g, In (LSub s d g) (arts st) -> In g (groups st)).
+Proof. exact Lemmas.gen_viewer_inv_reachable. Qed.
+Print Assumptions gen_viewer_inv_reachable.
+
+(* ---- the functions TRANSLATED from glue/core/data_combo_helper.py (coq/gen/Gen_picker.v, regenerated on every run; Model.v
+   part 6: gpstep = part 2 with refresh and the message handling replaced by the translated refresh, _filter_msg and the
+   subscription table of register_to_hub) ---- *)
+
+(* One step of the translated picker machine is one step of the hand model, as long as the helper's datasets are datasets
+   of the configuration (pk, preserved by every step whose operation hands over known datasets only). *)
+Theorem gen_picker_step_refines : forall ids o st, pk ids st -> op_known ids o = true ->
+  gpstep o st = pstep o st /\ pk ids (fst (pstep o st)).
+Proof. exact Lemmas.gen_picker_step_refines. Qed.
+Print Assumptions gen_picker_step_refines.
+
+(* picker_inv_reachable, about the translated definitions. *)
+Theorem gen_picker_inv_reachable : forall ds fl defidx hasdc ops,
+  pops_known (map di_id ds) ops = true ->
+  let st := run_gp ops (init_p ds fl defidx hasdc) in
+  sel_ok (p_ch st) (p_sel st) /\
+  (p_pending st = [] -> attrs_of (p_ch st) = spec_cids (p_fl st) (p_ds st) (p_datas st)).
+Proof. exact Lemmas.gen_picker_inv_reachable. Qed.
+Print Assumptions gen_picker_inv_reachable.
+
+(* Translated ComponentIDComboHelper.refresh offers exactly the attributes of the helper's datasets that pass the kind
+   filters (numeric / datetime / categorical main components, derived components under numeric+derived, pixel and world
+   coordinates under their flags), in order, whatever the flags and the datasets. *)
+Theorem gen_refresh_attrs : forall st, pknown st ->
+  attrs_of (map of_gchoice (Gen_picker.ComponentIDComboHelper_refresh (helper_of st))) = spec_cids (p_fl st) (p_ds st) (p_datas st).
+Proof. exact Lemmas.gen_refresh_attrs. Qed.
+Print Assumptions gen_refresh_attrs.
+
+(* Translated remove_data / _remove_data / clear / the seven flag setters: the guard of the single-dataset helper, the
+   membership test, and a refresh exactly when something changed. *)
+Theorem gen_picker_procs : forall h d b,
+  Gen_picker.ComponentIDComboHelper_remove_data h d =
+    (if Gen_picker.hp_manual h then None
+     else if Gen_picker.data_mem d (Gen_picker.hp_data h)
+          then Some (Gen_picker.mark_refresh (Gen_picker.set_data (Gen_picker.remove_data_ref d (Gen_picker.hp_data h)) h))
+          else Some h) /\
+  Gen_picker.ComponentIDComboHelper__remove_data h d = Gen_picker.ComponentIDComboHelper_remove_data h d /\
+  Gen_picker.ComponentIDComboHelper_clear h = Some (Gen_picker.mark_refresh (Gen_picker.set_data [] h)) /\
+  Gen_picker.ComponentIDComboHelper_set_numeric h b = Some (Gen_picker.mark_refresh (Gen_picker.set_flag_numeric b h)) /\
+  Gen_picker.ComponentIDComboHelper_set_datetime h b = Some (Gen_picker.mark_refresh (Gen_picker.set_flag_datetime b h)) /\
+  Gen_picker.ComponentIDComboHelper_set_categorical h b = Some (Gen_picker.mark_refresh (Gen_picker.set_flag_categorical b h)) /\
+  Gen_picker.ComponentIDComboHelper_set_pixel_coord h b = Some (Gen_picker.mark_refresh (Gen_picker.set_flag_pixel_coord b h)) /\
+  Gen_picker.ComponentIDComboHelper_set_world_coord h b = Some (Gen_picker.mark_refresh (Gen_picker.set_flag_world_coord b h)) /\
+  Gen_picker.ComponentIDComboHelper_set_derived h b = Some (Gen_picker.mark_refresh (Gen_picker.set_flag_derived b h)) /\
+  Gen_picker.ComponentIDComboHelper_set_none h b = Some (Gen_picker.mark_refresh (Gen_picker.set_flag_none b h)).
+Proof. exact Lemmas.gen_picker_procs. Qed.
+Print Assumptions gen_picker_procs.
+
+(* ---- the dataset pickers TRANSLATED from glue/core/data_combo_helper.py (Gen_picker.v, second half; Model.v part 7: gdpstep) ---- *)
+
+(* One step of the translated machine (ManualDataComboHelper.append_data / remove_data / set_multiple_data with
+   unique_data_iter, BaseDataComboHelper.refresh / _on_data_update, the subscription tables of the two classes with their
+   filters) is one step of the hand model, while the manual helper's list is duplicate-free (preserved). *)
+Theorem gen_dpicker_step_refines : forall o st, NoDup (dp_list st) ->
+  gdpstep o st = dpstep o st /\ NoDup (dp_list (fst (dpstep o st))).
+Proof. exact Lemmas.gen_dpicker_step_refines. Qed.
+Print Assumptions gen_dpicker_step_refines.
+
+(* dpicker_inv_reachable, about the translated definitions. *)
+Theorem gen_dpicker_inv_reachable : forall manual dcl ops,
+  let st := run_gdp ops (init_dp manual dcl) in
+  dp_ch st = map CAtt (if dp_manual st then dp_list st else dp_dc st) /\ sel_ok (dp_ch st) (dp_sel st).
+Proof. exact Lemmas.gen_dpicker_inv_reachable. Qed.
+Print Assumptions gen_dpicker_inv_reachable.
+
+(* ---- the update handlers of the translated viewer (no structural effect; their calls are compared with the real viewer's
+   by the viewer_updates stream) ---- *)
+
+(* Translated _update_subset: nothing for a style change; otherwise update() on the artists showing that subset. *)
+Theorem gen_update_subset_spec : forall cb m h,
+  Gen_viewer.Viewer__update_subset cb m h =
+  if Gen_viewer.msg_attribute m =? Gen_viewer.ATTR_style then h
+  else fold_left (fun h a => Gen_viewer.ev (Gen_viewer.EUpdate (Gen_viewer.art_layer a)) h)
+                 (filter (fun a => layer_eqb (Gen_viewer.art_layer a) (Gen_viewer.msg_obj m)) (Gen_viewer.h_artists h)) h.
+Proof. exact Lemmas.gen_update_subset_spec. Qed.
+Print Assumptions gen_update_subset_spec.
+
+(* Translated _update_data / _update_data_numerical for a message about dataset d: only when d itself is shown; then
+   update() (and _on_components_changed when the message carries components_changed) on the artists of d and of its
+   subsets, in zorder order. *)
+Theorem gen_update_data_spec : forall cb m h d, Gen_viewer.msg_obj m = LData d ->
+  Gen_viewer.Viewer__update_data cb m h =
+  (if has (LData d) (heap_arts h)
+   then fold_left (fun h a => if layer_data (Gen_viewer.art_layer a) =? d then upd_calls (Gen_viewer.msg_has_components_changed m) a h else h)
+                  (Gen_viewer.sort_by (fun x => Gen_viewer.art_z x) (Gen_viewer.h_artists h)) h
+   else h) /\
+  Gen_viewer.Viewer__update_data_numerical cb m h = Gen_viewer.Viewer__update_data cb m h.
+Proof. exact Lemmas.gen_update_data_spec. Qed.
+Print Assumptions gen_update_data_spec.
